@@ -4,6 +4,7 @@ import numpy as np
 
 from ..core import fb, fbs, cbs, unfb, close, allclose, fingerprint, safe_oracle
 from ..synth import FakeElec, ShellModel, SynthModel, random_rho
+from .. import runcommon as rc
 
 
 def _traj(N, n, rho, mass, state=0, dt=1.0):
@@ -184,6 +185,9 @@ def run(ctx):
                 # force is a different violation
                 sig = "ehrenfest-force-no-coherence" if obs["is_population_weighted_force"] else "ehrenfest-force-other"
             ctx.oracle_fail(sig, "force", c, obs, req, text)
+    # whole Ehrenfest runs (adiabatic and diabatic representation) against the composed step of the model (MudModel/Step.lean):
+    # every snapshot - position, momentum, density matrix, constant label, logged potential = tr(rho H)
+    rc.run_correspondence(ctx, ctx.budget(8, 200), hops=False, label="ehrun", cls="Ehrenfest")
     for i in range(ctx.budget(8, 60)):
         N = int(rng.integers(2, 5))
         n = int(rng.integers(1, 3))
